@@ -66,7 +66,14 @@ def _m_mean_curve(ex, st, args, kw, node):
     return ex.alloc_arr(st, (M,), MC(args[0].id, kw["distribution"]), "real", "fresh", tag="mean_curve")
 
 
+HASPK = z3.Function("mean_curve_has_peak", I, I, z3.BoolSort())      # mean_curve_peak raises ValueError exactly when the mean curve has no peak in the range (its contract: C08)
+
+
 def _m_mcp(ex, st, args, kw, node):
+    from pyvc.core import PyRaiseIf
+    ok = HASPK(args[0].id, kw["distribution"])
+    if not any(z3.eq(p_, ok) for p_ in st.pc):
+        raise PyRaiseIf(z3.Not(ok), "ValueError")
     return Tup((MCPF(args[0].id, kw["distribution"]), MCPA(args[0].id, kw["distribution"])))
 
 
@@ -80,15 +87,21 @@ def _by_az_inputs(ex, st):
     return facts + [M >= 1, H == A]
 
 
-_GH = {"MC": lambda h, c: z3.Select(MC(h, DIST), c), "MCPF": lambda h: MCPF(h, DIST), "MCPA": lambda h: MCPA(h, DIST), "HID": lambda a: z3.Select(HV, a)}
+_GH = {"MC": lambda h, c: z3.Select(MC(h, DIST), c), "MCPF": lambda h: MCPF(h, DIST), "MCPA": lambda h: MCPA(h, DIST), "HID": lambda a: z3.Select(HV, a),
+       "HASPK": lambda h: HASPK(h, DIST)}
 MCBA = Contract(qual="hvsrpy.hvsr_azimuthal.HvsrAzimuthal.mean_curve_by_azimuth", params=["self", "distribution"], ghost=_GH, make_inputs=_by_az_inputs,
                 ensures=["result.shape[0] == A and result.shape[1] == M", "forall(a, 0, A, forall(c, 0, M, result[a, c] == MC(HID(a), c)))"],
                 loops={0: ["forall(a, 0, _k0, forall(c, 0, M, array[a, c] == MC(HID(a), c)))"]}, stable_shapes=("array",), modifies=[],
                 notes="row a = mean curve of azimuth a for the distribution asked for")
 MCPBA = Contract(qual="hvsrpy.hvsr_azimuthal.HvsrAzimuthal.mean_curve_peak_by_azimuth", params=["self", "distribution"], ghost=_GH, make_inputs=_by_az_inputs,
-                 ensures=["len(result[0]) == A and len(result[1]) == A", "forall(a, 0, A, result[0][a] == MCPF(HID(a)) and result[1][a] == MCPA(HID(a)))"],
-                 loops={0: ["forall(a, 0, _k0, peak_frequencies[a] == MCPF(HID(a)) and peak_amplitudes[a] == MCPA(HID(a)))"]},
-                 stable_shapes=("peak_frequencies", "peak_amplitudes"), modifies=[], notes="entry a = peak of the mean curve of azimuth a")
+                 ensures=["len(result[0]) == A and len(result[1]) == A", "forall(a, 0, A, result[0][a] == MCPF(HID(a)) and result[1][a] == MCPA(HID(a)))",
+                          "forall(a, 0, A, HASPK(HID(a)))"],
+                 raises_only_if={"ValueError": "exists(a, 0, A, not HASPK(HID(a)))"},
+                 loops={0: ["forall(a, 0, _k0, peak_frequencies[a] == MCPF(HID(a)) and peak_amplitudes[a] == MCPA(HID(a)))", "forall(a, 0, _k0, HASPK(HID(a)))"]},
+                 stable_shapes=("peak_frequencies", "peak_amplitudes"), modifies=[],
+                 notes="entry a = peak of the mean curve of azimuth a; the table is handed out only when every azimuth has a peak (a missing peak is reported by the "
+                       "exception of the per-azimuth object, never by another azimuth's numbers)")
+MCPBA.conditional_raises = True
 _REG = {"HvsrTraditional.mean_curve": FuncV(_m_mean_curve, "mean_curve"), "HvsrTraditional.mean_curve_peak": FuncV(_m_mcp, "mean_curve_peak")}
 TASKS += [FunctionTask(MCBA, registry=_REG, clauses=["per-azimuth mean curves in azimuth order"]),
           FunctionTask(MCPBA, registry=_REG, clauses=["per-azimuth mean-curve peaks in azimuth order"])]
